@@ -55,6 +55,26 @@ func cellsC03(thorough bool) []Cfg {
 			}
 		}
 	}
+	// several pools on one engine (shared profiles): the counters are the engine's, each pool accounts for its own
+	// ammo; the later pools start shooting at once, or after a warm-up during which the first pool has already fired
+	for _, np := range []int{2, 3} {
+		for _, ow := range []int64{0, 700, 2500} {
+			for _, p := range []Sched{once(2), cst(2, 1000)} {
+				for _, a := range []int{1, 3, -1} {
+					for _, n := range []int{1, 2} {
+						if np == 3 && (n == 2 || a == 3) {
+							continue
+						}
+						b := 1
+						if np == 3 || n == 2 {
+							b = 0
+						}
+						out = append(out, Cfg{Prop: "C03", Startup: once(n), RPS: p, Ammo: a, Discard: true, ShotMs: []int64{0}, Bound: b, Pools: np, OtherWarmMs: ow})
+					}
+				}
+			}
+		}
+	}
 	var res []Cfg
 	for _, c := range out {
 		if c.Prop != "" {
